@@ -37,9 +37,16 @@ from .constants import DIAMETER_AGENT_CLIENT_MODE
 from .constants import DIAMETER_AGENT_SERVER_MODE
 from .constants import DIAMETER_AGENT_TRANSPORT_TYPE_TCP
 from .constants import DIAMETER_AGENT_TRANSPORT_TYPE_SCTP
+from .exceptions import AVPAttributeValueError
 from .exceptions import AVPParsingError
+from .exceptions import DataTypeError
 from .exceptions import DiameterApplicationError
 from .exceptions import DiameterAssociationError
+from .exceptions import DiameterAvpError
+from .exceptions import DiameterHeaderAttributeValueError
+from .exceptions import DiameterHeaderError
+from .exceptions import DiameterMessageError
+from .exceptions import DiameterTypeError
 from .messages import DiameterAnswer
 from .messages import DiameterRequest
 from .proxy import BaseMessages
@@ -54,6 +61,12 @@ from .utils import is_base_answer
 
 diameter_conn_logger = logging.getLogger("DiameterConnection")
 diameter_logger = logging.getLogger("Diameter")
+
+#: Everything the decoder may raise for bytes a peer has sent.
+DECODING_ERRORS = (AVPParsingError, AVPAttributeValueError, DataTypeError,
+                   DiameterAvpError, DiameterHeaderAttributeValueError,
+                   DiameterHeaderError, DiameterMessageError,
+                   DiameterTypeError)
 
 
 def make_logging(msg, disable_else=False):
@@ -193,8 +206,8 @@ class DiameterAssociation(object):
                 
                 diameter_conn_logger.debug(f"Found {len(msgs)} Diameter "\
                                            f"Message(s).")
-            except AVPParsingError:
-                diameter_conn_logger.exception(f"AVPParsingError has "\
+            except DECODING_ERRORS:
+                diameter_conn_logger.exception(f"A decoding error has "\
                                                f"been raised due stream: "\
                                                f"{data_stream.hex()}")
 
